@@ -53,4 +53,8 @@ def vectors_from_gram_matrix(gram: np.ndarray) -> list[np.ndarray]:
     except np.linalg.LinAlgError:
         print("Matrix is not positive semidefinite. Using eigendecomposition as alternative.")
         d, v = np.linalg.eig(gram)
+        # The eigenvectors of a repeated eigenvalue are not returned orthogonal: orthonormalise them
+        # (keeping their order and phases) so that gram = v @ diag(d) @ v^dagger.
+        q_mat, r_mat = np.linalg.qr(v)
+        v = q_mat * (np.diag(r_mat) / np.abs(np.diag(r_mat)))
         return [scipy.linalg.sqrtm(np.diag(d)) @ v[i].conj().T for i in range(dim)]
